@@ -493,3 +493,87 @@ func c07CopyStorm(kind string, clients, perClient int) {
 	nontrivial(kind + "|copy-storm")
 	s.end()
 }
+
+// firstUseBackend holds every request that finds its bucket absent until all of them have found it
+// absent: the interleaving in which simultaneous first requests for a bucket all reach the
+// create-on-first-use step of the auto-bucket option
+type firstUseBackend struct {
+	gofakes3.Backend
+	mu      sync.Mutex
+	waiting int
+	want    int
+	release chan struct{}
+}
+
+func (b *firstUseBackend) BucketExists(name string) (bool, error) {
+	ok, err := b.Backend.BucketExists(name)
+	if err != nil || ok {
+		return ok, err
+	}
+	b.mu.Lock()
+	b.waiting++
+	if b.waiting == b.want {
+		close(b.release)
+	}
+	ch := b.release
+	b.mu.Unlock()
+	select {
+	case <-ch:
+	case <-time.After(2 * time.Second):
+	}
+	return ok, err
+}
+
+// c07AutoBucketFirstUse: with the auto-bucket option a bucket comes to exist with the first request
+// that names it. Simultaneous first requests are all valid requests for a bucket that exists by the
+// time any of them is answered: each is served (sequentially the first creates it, the others find it)
+func c07AutoBucketFirstUse(kind string, clients int) {
+	if isSingle(kind) {
+		return
+	}
+	st := newStore(kind)
+	defer st.Close()
+	if st.Ext != nil {
+		return
+	}
+	fb := &firstUseBackend{Backend: st.Backend, want: clients, release: make(chan struct{})}
+	h := newServer(fb, gofakes3.WithAutoBucket(true))
+	emit("c07", "H", kind, "auto=1,versioned=0,pages=0,failpage=0", "-")
+	emit("c07", "NOMODEL")
+	var wg sync.WaitGroup
+	start := make(chan struct{})
+	res := make([]Resp, clients)
+	for c := 0; c < clients; c++ {
+		wg.Add(1)
+		go func(c int) {
+			defer wg.Done()
+			<-start
+			res[c] = do(h, Req{Method: "PUT", Path: fmt.Sprintf("/first-use/k%d", c), Body: []byte(fmt.Sprintf("body-%d", c))})
+		}(c)
+	}
+	close(start)
+	doneCh := make(chan struct{})
+	go func() { wg.Wait(); close(doneCh) }()
+	if !waitOr(doneCh, 30*time.Second) {
+		emit("c07", "HANG", hs("simultaneous first requests for an auto-created bucket did not complete"))
+		emit("c07", "E")
+		return
+	}
+	var bad []string
+	for c, r := range res {
+		if r.Status != 200 || r.Panic != "" {
+			bad = append(bad, fmt.Sprintf("PUT k%d answers %d %s %s", c, r.Status, errCode(r.Body), r.Panic))
+			continue
+		}
+		if g := do(h, Req{Method: "GET", Path: fmt.Sprintf("/first-use/k%d", c)}); g.Status != 200 || string(g.Body) != fmt.Sprintf("body-%d", c) {
+			bad = append(bad, fmt.Sprintf("GET k%d answers %d %q after its PUT was acknowledged", c, g.Status, truncate(g.Body, 30)))
+		}
+	}
+	if len(bad) > 0 {
+		emit("c07", "BAD", hs(fmt.Sprintf("%s, auto-bucket: %d simultaneous first requests for a bucket: %s", kind, clients, strings.Join(bad, "; "))))
+	} else {
+		emit("c07", "GOOD", hs(fmt.Sprintf("%s, auto-bucket: %d simultaneous first requests for a bucket are all served", kind, clients)))
+	}
+	nontrivial(kind + "|auto-bucket-first-use")
+	emit("c07", "E")
+}
